@@ -930,7 +930,7 @@ def lss_checks(ctx, N):
                 Sx, Sy = ss.geometric_sums(float(beta), npm(xt))
             ctx.count("geometric_sums:cases")
             # solve is backward stable: forward error u cond(I - beta A) ||S_x||; cond computed exactly
-            kap = float(cond_inf(IbA))
+            kap = float(ninf(fsolve(IbA, ident(n))) * (1 + abs(beta) * ninf(A)))      # includes forming I - beta A
             ue = U0 * 8 * n
             exSy = mm(G, exS)
             tolx = tolq(ue * (kap + 1) * float(ninf(exS)), exS)
@@ -1247,7 +1247,7 @@ def stat_lit(res):
 def exact_stationary(d, with_H):
     """closed form in Fractions, independent of the Coq model: constant state (value 1) kept, the other means solve
     (I - A22) mu = A21, the other covariances solve the Lyapunov equation through the Kronecker system; returns
-    (mu_x, mu_y, Sigma_x, Sigma_y, Sigma_yx, kappa) with kappa = cond(I - A22) + cond(I - A22 (x) A22), or None"""
+    (mu_x, mu_y, Sigma_x, Sigma_y, Sigma_yx, kappa) with kappa = the summed sensitivities of the two linear systems, or None"""
     n, k = d["n"], d["k"]
     A, C, G, H = d["A"], d["C"], d["G"], d["H"]
     pos = eval(d["const_positions"])
@@ -1263,7 +1263,11 @@ def exact_stationary(d, with_H):
     v = fsolve(K, [[CC2[r // dd][r % dd]] for r in range(dd * dd)]) if dd else []
     if mu2 is None or v is None:
         return None
-    kappa = (cond_inf(IA) + cond_inf(K)) if dd else Fraction(2)
+    # sensitivity including the error of FORMING I - A22 and I - A22 (x) A22 in floats (cancellation near unit roots):
+    # ||M^-1|| (1 + ||subtracted part||) instead of ||M^-1|| ||M||
+    def sens(Mx, sub):
+        return ninf(fsolve(Mx, ident(len(Mx)))) * (1 + sub)
+    kappa = (sens(IA, ninf(A22)) + sens(K, ninf(A22) ** 2)) if dd else Fraction(2)
     mu_x = zeros(n, 1); Sx = zeros(n, n)
     for p in pos:
         mu_x[p][0] = Fraction(1)
@@ -1339,7 +1343,7 @@ def stationary_dist_checks(ctx, N):
                 if not (mabs(mu_x, mm(A, fmu), tolr) and mabs(Sx, madd(mm(mm(A, fS), mt(A)), mm(C, mt(C))), tolr)):
                     ctx.fail("lss_stationary_fixed_point", "mu_x != A mu_x or Sigma_x != A Sigma_x A' + CC'", inp,
                              [mu_x.tolist(), Sx.tolist()], None)
-                if not d["near"].startswith("grow"):
+                if np.linalg.eigvalsh(np.array(fl(ex[2]))).min() >= 0:      # the exact solution is PSD iff A22 is stable
                     check_psd(ctx, Sx, inp, "stationary Sigma_x", tol=float(tol))
         cases.append(tup(dims(d), qm(A), qm(C), qm(G), "(Some %s)" % qm(H) if with_H else "None", qm(d["mu0"]), lit, qlit(tol)))
         meta.append((inp, res if isinstance(res, str) else [np.asarray(z).tolist() for z in res]))
